@@ -2,6 +2,7 @@ package checks
 
 import (
 	"encoding/binary"
+	"math/bits"
 	"encoding/json"
 	"fmt"
 	"strings"
@@ -107,6 +108,9 @@ func c02Case(c dirCase, viol func(sig, detail string), r *core.Run) {
 		return
 	}
 	if err != nil {
+		if c.Builder == "sharded" && model.TooDeep(c.names(), bits.TrailingZeros(uint(c.Fanout))) {
+			return // two names agree in every addressable hash bit: no HAMT can hold them
+		}
 		viol("build-error "+c.Builder, fmt.Sprintf("%s: %v", c, err))
 		return
 	}
@@ -139,6 +143,7 @@ func c02Case(c dirCase, viol func(sig, detail string), r *core.Run) {
 		for _, n := range gen.Universe(13) {
 			non = append(non, n)
 		}
+		non = append(non, gen.ExtremeUniverse()...)
 		for n := range want {
 			non = append(non, "00"+n, "0"+n, n+"x", strings.ToUpper(n)+"~")
 			if len(n) > 2 {
@@ -206,7 +211,12 @@ func hashBitsSweep(r *core.Run) {
 			for i := range widths {
 				widths[i] = w
 			}
-			got, err := hamt.VerifHashBitsNext(v[:], widths)
+			var got []int
+			var err error
+			if p, pv := core.Guard(func() { got, err = hamt.VerifHashBitsNext(v[:], widths) }); p {
+				r.Violate(fmt.Sprintf("panic hashbits-next w=%d", w), fmt.Sprintf("hash %016x, %d x %d bits: %v", h, levels+1, w, pv), nil)
+				continue
+			}
 			r.Transitions.Add(1)
 			if err == nil {
 				r.Violate("hashbits-next-overlong", fmt.Sprintf("reader Next accepted %d x %d bits from a 64-bit hash", levels+1, w), nil)
@@ -220,14 +230,22 @@ func hashBitsSweep(r *core.Run) {
 				if got[l] != want {
 					r.Violate(fmt.Sprintf("hashbits-next w=%d level=%d", w, l), fmt.Sprintf("hash %016x: reader %d, arithmetic %d", h, got[l], want), nil)
 				}
-				bs, err := builder.VerifHashBitsSlice(v[:], l*w, w)
+				var bs int
+				if p, pv := core.Guard(func() { bs, err = builder.VerifHashBitsSlice(v[:], l*w, w) }); p {
+					r.Violate(fmt.Sprintf("panic hashbits-slice w=%d level=%d", w, l), fmt.Sprintf("hash %016x: %v", h, pv), nil)
+					continue
+				}
 				r.Transitions.Add(1)
 				if err != nil || bs != want {
 					r.Violate(fmt.Sprintf("hashbits-slice w=%d level=%d", w, l), fmt.Sprintf("hash %016x: builder %d (err=%v), arithmetic %d", h, bs, err, want), nil)
 				}
 			}
-			if _, err := builder.VerifHashBitsSlice(v[:], levels*w, w); err == nil && (levels+1)*w > 64 {
-				r.Violate("hashbits-slice-overlong", fmt.Sprintf("builder Slice(%d,%d) accepted", levels*w, w), nil)
+			if p, pv := core.Guard(func() {
+				if _, err := builder.VerifHashBitsSlice(v[:], levels*w, w); err == nil && (levels+1)*w > 64 {
+					r.Violate("hashbits-slice-overlong", fmt.Sprintf("builder Slice(%d,%d) accepted", levels*w, w), nil)
+				}
+			}); p {
+				r.Violate(fmt.Sprintf("panic hashbits-slice-overlong w=%d", w), fmt.Sprint(pv), nil)
 			}
 			r.Evaluations.Add(1)
 		}
@@ -269,6 +287,15 @@ func runC02(r *core.Run) {
 			cases = append(cases, dirCase{Builder: "sharded", Fanout: 1024, Names: gen.SubsetOf(du, mask)})
 		}
 	}
+	// names with engineered hashes: buckets 0 and max at every level, pairs that
+	// separate only at the deepest addressable level of each fanout
+	xu := gen.ExtremeUniverse()
+	for mask := 1; mask < 1<<uint(len(xu)); mask++ {
+		for _, f := range fanouts {
+			cases = append(cases, dirCase{Builder: "sharded", Fanout: f, Names: gen.SubsetOf(xu, mask)})
+		}
+	}
+	r.Set("extreme_universe", xu)
 	cases = append(cases, dirCase{Builder: "threshold-plain"}, dirCase{Builder: "threshold-sharded"})
 	cases = append(cases, dirCase{Builder: "sharded", Fanout: 256, NGen: 2000}, dirCase{Builder: "sharded", Fanout: 8, NGen: 600})
 	if !r.Quick() {
